@@ -248,13 +248,15 @@ Section RecentsLoop.
 
   Theorem recents_loop_spec (l : list (N * bytes)) :
     recents_loop signer number limit l = true <->
-    exists seen recent, In (seen, recent) l /\ recent = signer /\ (sub64 number limit < seen)%N.
+    exists seen recent, In (seen, recent) l /\ recent = signer /\ (number < limit \/ sub64 number limit < seen)%N.
   Proof.
     rewrite recents_loop_existsb, existsb_exists. split.
     - intros ([seen recent] & I1 & Hh). unfold recent_hit in Hh. cbn in Hh.
-      apply andb_true_iff in Hh as [E L]. apply bytes_eqb_eq in E. apply N.ltb_lt in L. eauto.
+      apply andb_true_iff in Hh as [E L]. apply bytes_eqb_eq in E. apply orb_true_iff in L.
+      exists seen, recent. repeat split; auto. destruct L as [L|L]; apply N.ltb_lt in L; auto.
     - intros (seen & recent & I1 & -> & L). exists (seen, signer); split; auto.
-      unfold recent_hit; cbn. rewrite bytes_eqb_refl. apply N.ltb_lt in L. rewrite L. reflexivity.
+      unfold recent_hit; cbn. rewrite bytes_eqb_refl. cbn. apply orb_true_iff.
+      destruct L as [L|L]; apply N.ltb_lt in L; auto.
   Qed.
 End RecentsLoop.
 
